@@ -33,12 +33,42 @@ fn class_of(s: SolverStatus) -> &'static str {
 }
 
 pub fn roundtrip_event(run: usize, p: &Problem, dir: &str, solve_first: bool, mutate: bool) -> Value {
-    let st = p.settings();
+    roundtrip_event_upd(run, p, dir, solve_first, mutate, false)
+}
+
+/// `update`: a data-update history precedes the save (q, b and the values of P and A are rewritten through the
+/// update API); the file must then hold the UPDATED problem.
+pub fn roundtrip_event_upd(run: usize, p0: &Problem, dir: &str, solve_first: bool, mutate: bool, update: bool) -> Value {
+    let st = p0.settings();
+    // the problem the file has to reproduce
+    let mut pnew = p0.clone();
+    if update {
+        let mask: u32 = std::env::var("VH_UPD_MASK").ok().and_then(|x| x.parse().ok()).unwrap_or(15);
+        if mask & 1 != 0 { for (k, v) in pnew.q.iter_mut().enumerate() { *v = *v * 1.5 + 0.25 * (k as f64 + 1.0); } }
+        if mask & 2 != 0 { for v in pnew.b.iter_mut() { if v.is_finite() && v.abs() < 1e15 { *v = *v * 1.25 + 0.5; } } }
+        if mask & 4 != 0 { for v in pnew.A.nzval.iter_mut() { *v *= 1.125; } }
+        if mask & 8 != 0 { for v in pnew.P.nzval.iter_mut() { *v *= 1.0625; } }
+    }
+    let p = &pnew;
     let (P, A) = (p.P.to_clarabel(), p.A.to_clarabel());
     let res = catch_unwind(AssertUnwindSafe(|| {
         let bound = clarabel::get_infinity();
-        let mut s1 = DefaultSolver::new(&P, &p.q, &A, &p.b, &p.clarabel_cones(), st.clone());
-        if solve_first { s1.solve(); }
+        let mut s1 = if update {
+            let (P0, A0) = (p0.P.to_clarabel(), p0.A.to_clarabel());
+            let mut s = DefaultSolver::new(&P0, &p0.q, &A0, &p0.b, &p0.clarabel_cones(), st.clone());
+            if solve_first { s.solve(); }
+            if !s.is_data_update_allowed() { return json!({"ev": "RoundTrip", "run": run, "skipped": true}); }
+            let mask: u32 = std::env::var("VH_UPD_MASK").ok().and_then(|x| x.parse().ok()).unwrap_or(15);
+            let ok = (mask & 1 == 0 || s.update_q(&p.q).is_ok()) && (mask & 2 == 0 || s.update_b(&p.b).is_ok()) && (mask & 4 == 0 || s.update_A(&p.A.to_clarabel().nzval).is_ok())
+                && (mask & 8 == 0 || s.update_P(&p.P.to_clarabel().to_triu().nzval).is_ok());
+            if !ok { return json!({"ev": "RoundTrip", "run": run, "save_ok": false, "load_ok": false, "msg": "an update of matching shape was rejected",
+                "settings_equal": false, "timelimit_roundtrip": false, "override_applied": false, "reduced": true, "equil": true, "status_equal": false, "obj_ok": false}); }
+            s
+        } else {
+            let mut s = DefaultSolver::new(&P, &p.q, &A, &p.b, &p.clarabel_cones(), st.clone());
+            if solve_first { s.solve(); }
+            s
+        };
         // a history: the public settings are edited after construction, then the problem is saved; the file must
         // still hold the problem the solver was built for (and the settings now in force)
         if mutate {
@@ -84,7 +114,7 @@ pub fn roundtrip_event(run: usize, p: &Problem, dir: &str, solve_first: bool, mu
             cones_equal = s3.data.cones == s1.data.cones;
         }
         // same verdict and objective
-        if !solve_first { s1.solve(); }
+        if !solve_first || update { s1.solve(); }   // (after an update the earlier solve describes the old data)
         s2.solve();
         let (a, b) = (&s1.solution, &s2.solution);
         // with equilibration off the loaded problem is bit-identical, so the solve is too; otherwise the
@@ -424,8 +454,10 @@ pub fn roundtrip_events(seed: u64, count: usize, dir: &str) -> (Vec<Value>, Vec<
         if rng.gen::<f64>() < 0.1 { p.P = Csc::zeros(p.n(), p.n()); }
         if rng.gen::<f64>() < 0.1 && !p.q.is_empty() { p.q[0] = 1.2345678901234567e300; }
         if rng.gen::<f64>() < 0.1 && !p.q.is_empty() { p.q[0] = 4.9e-324; }
-        lines.push(roundtrip_event(run, &p, dir, rng.gen::<bool>(), rng.gen::<f64>() < 0.25));
-        cases.push(json!({"run": run, "problem": p}));
+        let upd = rng.gen::<f64>() < 0.25;
+        let ev = roundtrip_event_upd(run, &p, dir, rng.gen::<bool>(), rng.gen::<f64>() < 0.25, upd);
+        if ev.get("skipped").is_some() { lines.push(roundtrip_event(run, &p, dir, false, false)); } else { lines.push(ev); }
+        cases.push(json!({"run": run, "problem": p, "update": upd}));
     }
     (lines, cases)
 }
